@@ -493,7 +493,7 @@ func (w *world) do(s stmt) bool {
 			return false
 		}
 		if err == nil {
-			w.c.Fail("invalid-statement-accepted", "%s was accepted although its rows exceed the size limit", clip(s.SQL, 100))
+			w.c.Fail("invalid-statement-accepted", "%s was accepted although it is invalid (a row over the size limit, a table that exists)", clip(s.SQL, 100))
 			return false
 		}
 		return true
@@ -954,6 +954,7 @@ type alphaOpt struct {
 	NullInsert    bool     // INSERT naming only the first column (the others are NULL)
 	EmptyInsert   bool     // a single-row INSERT whose varchar values are empty strings (not NULL)
 	FailingInsert bool     // a single-row INSERT over the size limit (refused; may use up a row id)
+	FailingCreate bool     // CREATE TABLE of a table that exists (refused; must not take a page, a row id or an LSN that a later recovery trips over)
 	OnlyCreate    []string // tables that may be created but get no other statements (row ids and LSNs consumed without a log record)
 }
 
@@ -987,6 +988,9 @@ func (w *world) alphabet(o alphaOpt) []stmt {
 			if st, ok := mkUpdateTooLarge(m, tn); ok && len(t.Rows) > 0 {
 				out = append(out, st)
 			}
+		}
+		if o.FailingCreate {
+			out = append(out, stmt{SQL: fmt.Sprintf("CREATE TABLE %s (z int)", tn), Kind: "create-refused", Table: tn, MustFail: true, apply: func(*mModel, int) {}})
 		}
 		half := t.Inserted / 2
 		if o.Updates && len(t.Rows) > 0 {
